@@ -2,12 +2,15 @@
 CFG = {'assumptions': ['f64 inputs cross the boundary as bit patterns and are decoded to exact rationals; Rust f64 '
                  'ops are IEEE-754; libm hypot is within 1 ulp and exact where the exact result is a binary64 value',
                  'coordinates, ratios, distances and max are finite and of moderate magnitude (no overflow / '
-                 'subnormal intermediate results); max_segment_length > 0',
+                 'subnormal intermediate results); max_segment_length > 0. Observed outside that range (not part of '
+                 'the stream): for a Line of length 1e-170 the product diff*distance underflows and '
+                 'point_at_distance_from_start(0.5*len) returns the start, v.v underflows and line_locate_point returns '
+                 '0; for length 1e170 the same products overflow (NaN point, locate None)',
                  'the theorems take the segment length as a rational-valued function satisfying LenAx (non-negative, '
                  'symmetric, zero exactly between equal points) and, for piece lengths, LenLerp (homogeneous along a '
                  'segment); the Euclidean length satisfies both but is rational only on axis-aligned / Pythagorean '
                  'segments'],
- 'count': {'quick': 200000, 'thorough': 8000000},
+ 'count': {'quick': 120000, 'thorough': 5000000},
  'lean_files': ['GeoModel/Interp.lean', 'GeoModel/Ops/C15.lean', 'GeoProofs/Lemmas/C15.lean'],
  'rule': 'random Lines and LineStrings (0-6 vertices; axis-aligned / Pythagorean steps with rational lengths, '
          'grid and moderate-range float coordinates; repeated vertices, zero-length lines, back-tracking and '
